@@ -708,6 +708,11 @@ CONV = [
     dict(tag='jmono32', sizes=[3, 2], jmono=[[0, 1]]),
     dict(tag='rdom23', sizes=[2, 3], mono=[1, 1], rdom=[[0, 1]], nearest=False),
     dict(tag='rdom32', sizes=[3, 2], mono=[1, 1], rdom=[[0, 1]], nearest=False),
+    # signed options that cancel: peak (-1) next to increasing / valley (+1) entries (a configuration is "empty" only if
+    # every entry is zero, not if the entries sum to zero)
+    dict(tag='unip3', sizes=[3, 2], uni=[-1, 0], mono=[0, 1]),
+    dict(tag='unipv', sizes=[3, 3], uni=[-1, 1], free=[0, 1, 3, 4, 5, 7], slice_iters=[1, 2]),
+    dict(tag='edgeunip', sizes=[2, 3], mono=[1, 0], uni=[0, -1], edge=[[0, 1, 1]]),
     # several constraints of the same family (distinct roll-back slots must not be shared)
 ]
 # 8-weight lattices: the kernel is symbolic on a 4-coordinate slice (the other weights are 0), N in {2,4}
